@@ -18,13 +18,13 @@ def rules(ctx, rep, entries, floors=True):
     P.check_free_roots(r1b)
     r3 = rep.rule("W3.defaults", "no mutable default arguments", floor=0)
     P.check_defaults(r3)
-    r4 = rep.rule("W4+W6.memo", "memoised functions and cached properties are pure, hashable-keyed and return immutable values", floor=8 if floors else 0)
+    r4 = rep.rule("W4+W6.memo", "memoised functions and cached properties are pure, hashable-keyed and return immutable values", floor=0)
     P.check_memoised(r4)
     r7 = rep.rule("W7.ambient", "parse-reachable code reads no ambient state (environment, clock, randomness, argv, other files, hash())", floor=20 if floors else 0)
     P.check_ambient(r7, "all" if ctx.tier == "thorough" and floors else "reach")
     r8 = rep.rule("W8.order", "no result is built by iterating an unordered set (hash-seed dependent order)", floor=5 if floors else 0)
     P.check_unordered(r8, "all" if ctx.tier == "thorough" and floors else "reach")
-    r9 = rep.rule("import-time", "import-time effects are the verified list (logging.basicConfig only)", floor=1 if floors else 0)
+    r9 = rep.rule("import-time", "import-time effects are the verified list (logging.basicConfig only)", floor=0)
     P.check_import_time(r9)
     r0 = rep.rule("inventory", "module/class-level mutable objects (each must have zero mutation sites, W1)", floor=0)
     P.inventory(r0)
